@@ -4,7 +4,7 @@ from .common import generic_run, FinalDbMonitor, launched_instances
 PID = 'C46'
 ENGINE = 'E1'
 LEVEL = 'exploration'
-RULE = ('One case = generated workflow started with --startcp after the initial cycle point (on and off the sequences) + all-complete outcome plan + seeded schedule. Every launch is checked against the start point; the set of launched instances is compared with the model closure in which dependencies on pre-start instances count as satisfied. Distinct = distinct (program, start point, schedule digest); non-trivial = some launched instance has a prerequisite atom that points before the start point (and at/after the initial point).')
+RULE = ('One case = generated workflow started with --startcp after the initial cycle point (on and off the sequences; a third of the cases have a sequential special task) + all-complete outcome plan + seeded schedule. Every launch is checked against the start point; the set of launched instances is compared with the model closure in which dependencies on pre-start instances count as satisfied. Distinct = distinct (program, start point, schedule digest); non-trivial = some launched instance has a prerequisite atom that points before the start point (and at/after the initial point).')
 ASSUMPTIONS = [
     'jobs, polls, submissions, message transport and the clock are simulated',
     'reference model / invariants cover the generated workflow sub-language',
@@ -29,6 +29,21 @@ KNOBS = {'p_offset': 0.5, 'span': (3, 6), 'n_sections': (1, 3),
 def prog_hook(prog, rng):
     if prog.fcp - prog.icp >= 1:
         prog.start = rng.randint(prog.icp + 1, prog.fcp)
+    # a third of the cases: a sequential special task (its implicit
+    # dependence on the previous instance counts as satisfied before the
+    # start point like any other) -- separate stream
+    import random
+    r2 = random.Random(repr(rng.getstate()[1][:4]))
+    if r2.random() < 0.33:
+        # (only a task that must succeed: with an optional success the
+        # next instance may wait for ever, which is cylc's design and not
+        # modelled)
+        failing = {a.task for s_ in prog.sections for e, _t in s_.lines
+                   if e is not None for a in atoms(e) if a.output == 'failed'}
+        names = sorted(n for n, t in prog.tasks.items()
+                       if not t.opt.get('succeeded') and n not in failing)
+        if names:
+            prog.tasks[names[r2.randrange(len(names))]].sequential = True
 
 
 def end_check(res, mode):
